@@ -1,7 +1,15 @@
 """C11 - state resolution is order-independent and yields well-formed state; orderings are topological.
 The Room_gen.tla queries of C10 are run under permutations of the state sets, shuffles inside every list,
 duplicated auth-event entries and repeated runs through the current and the deprecated entry points; TLC checks
-the structural clauses (WellFormedR) on the definition for every fork pair."""
+the structural clauses (WellFormedR) on the definition for every fork pair.
+Further dimensions of the input, each licensed by a lemma of StateRes.tla that TLC checks on the emitted queries:
+ * sender-chosen depths (V1StrictTotal, V1DepthRankOnly): every version-1 query is repeated with the depth ranks realised
+   as int64 depths next to MinInt64 / MaxInt64 and more than 2^63 apart around a pivot (negative depths included): all
+   presentations give one state, the state of the natural realisation; v2 / v2.1 queries and the topological orderings
+   are repeated with depths that run against the DAG (they never read them);
+ * padding (PadNeutral): an event of type m.room.create / m.room.power_levels / m.room.join_rules under a non-empty
+   state key of its own, added to every state set of every query: it is kept, all other keys resolve as before;
+ * spelling of power levels (LevelsSpellingFree): the rooms of the SpellSet plans (vlib/room.py)."""
 from vlib import room
 
 
@@ -9,8 +17,10 @@ def run(ctx):
     ctx.repro_attempts = 6   # order- and schedule-dependent misbehaviour is retried in fresh processes
     ctx.exhaustive = False
     ctx.assumptions += ["Go map-iteration order and list shuffles are sampled (seeded), not enumerated"]
-    ctx.notes["rule"] = ("every Room_gen.tla query x {baseline, reversed sets, 3 seeded shuffles, duplicated auth "
-                         "entries, 4 repeats} x entry points {ResolveConflictsNew, ResolveStateConflictsV2New, "
+    ctx.notes["rule"] = ("every Room_gen.tla query x {baseline, every other order of the state sets, 3 seeded shuffles, duplicated auth "
+                         "entries, 4 repeats; the same (lighter) under each extreme realisation of the depth ranks (v1) / once with depths "
+                         "against the DAG (v2, v2.1); one shuffled presentation padded with a create / power_levels / join_rules event "
+                         "under a key of its own} x entry points {ResolveConflictsNew, ResolveStateConflictsV2New, "
                          "deprecated ResolveConflicts / ResolveStateConflictsV2, ResolveStateConflicts}; plus 8 "
-                         "presentation orders of the room's events through ReverseTopologicalOrdering (both orders)")
+                         "presentation orders of the room's events through ReverseTopologicalOrdering (both orders), + 2 with depths against the DAG")
     room.generate(ctx, on_batch=lambda recs: ctx.replay_and_compare("c11", recs))
